@@ -211,6 +211,16 @@ pub fn compare_with_reference(prog: &Prog, ctx: &mut Ctx, cli_sample: bool, faul
 
 
 fn settle_none(ctx: &mut Ctx, v: Violation) -> Result<Option<refsem::RunResult>, Violation> {
+    // second guard (DESIGN 2.2): a disagreement is reported only for a program that the static
+    // fragment checker vouches for; a generator slip that leaves the fragment is counted, not reported
+    if let Some(ir) = v.case.get("ir") {
+        if let Ok(prog) = serde_json::from_value::<Prog>(ir.clone()) {
+            if !crate::fragment::check(&prog) {
+                ctx.exclude("disagreement-on-a-program-outside-the-fragment(static check)");
+                return Ok(None);
+            }
+        }
+    }
     ctx.settle(v).map(|_| None)
 }
 
